@@ -204,6 +204,13 @@ Example space_sequence_outside_class_rewritten :
   final_passes ($"a\t\n\f\r b") = Ok ($"a\s\x0bb").
 Proof. vm_compute. reflexivity. Qed.
 
+(* the flag groups the optimiser prints around a dot are stripped: (?s:.) - any character
+   including newline - and (?-s:.) - any character but newline - both come out as a bare dot,
+   whose meaning is then decided by the leading flag group (known finding C01-dotall-stripped) *)
+Example dot_flag_groups_stripped :
+  final_passes ($"a(?s:.)b") = Ok ($"a.b") /\ final_passes ($"a(?-s:.)b") = Ok ($"a.b").
+Proof. split; vm_compute; reflexivity. Qed.
+
 (* ---------- C19: bounds of the group scan, and termination of the flag-group loop ---------- *)
 Lemma fgbe_aux_bounds rest : forall before i cnt alt idx alt',
   fgbe_aux before rest i cnt alt = Ok (idx, alt') -> (i < idx <= i + length rest)%nat.
